@@ -780,6 +780,11 @@ func (s *State) applyFunction(name string, fn object.Object, args []object.Objec
 		s.env.TriggerNoCache()
 		return res
 	}
+	// Don't cache function results: a returned closure captures this call's environment, serving it again
+	// would make separate calls share their captured variables.
+	if res.Type() == object.FUNC {
+		return res
+	}
 	// Don't cache errors, as it could be due to binding for instance.
 	if res.Type() == object.ERROR {
 		log.Debugf("Cache miss for %s %v, not caching error result", function.CacheKey, args)
